@@ -60,6 +60,8 @@ X, Y, Z = ["F", 3], ["F", 4], ["F", 5]
 BEH_ABC = [
     ["none"], ["prune"], ["empty"], ["rep1", X], ["repseq", [X, Y]],
     ["ins", [X]], ["ins", [["I", "tuple", [X, Y]]]], ["rep1", ["I", "list", [X]]],
+    # a REPLACEMENT whose last element is a leaf that compares equal to (but is not) the leaf that may follow the frame
+    ["repseq", [X, ["L", 2]]],
 ]
 BEH_X = [["none"], ["prune"], ["ins", [Z]]]
 BEH_Y = [["none"], ["prune"]]
